@@ -45,7 +45,16 @@ def make_case(seed, idx, tier):
         # the top of numpy's seed range is legal too: one CMA-ES deme sprouted in metaepoch 1 (its seed is random_seed + 1)
         prof.update({"n_levels": 2, "leaf": ["cma", "cma_warm", "cma_stds"][(idx // 12) % 3], "sprout": "simple", "level_limit": 1, "lscs": ["dontstop"], "gsc": "melimit",
                      "root": ["sea", "de", "shade", "sobol"][(idx // 12) % 4], "fams": ["rastrigin", "sphere"]})
+    multi = idx % 8 == 3
+    if multi:
+        # several demes sprouted onto one level in the same metaepoch, on a level whose engine consumes the seed it is handed
+        prof.update({"n_levels": 2 + (idx // 8) % 2, "leaf": ["cma", "lhs", "sobol", "cma_warm"][(idx // 8) % 4], "sprout": "custom", "level_limit": 4,
+                     "lscs": ["dontstop", "melimit"], "gsc": "melimit", "root": ["sea", "de", "shade", "lhs"][(idx // 8) % 4], "fams": ["rastrigin", "funnel"]})
     d = gen.gen_tree_case(rng, prof)
+    if multi:
+        d["sprout"] = {"k": "custom", "gen": {"k": "nbc", "df": 1.0, "trunc": 1.0}, "dfilters": [{"k": "demelimit", "n": 3}], "tfilters": [{"k": "levellimit", "n": 4}], "ll": 4}
+        d["gsc"] = {"k": "melimit", "n": 5}
+        d["force_subprocess"] = True
     d["options"]["random_seed"] = rng.randint(0, 10**6) if idx % 6 else 0  # 0 is a legal seed
     if idx % 12 == 5:
         d["options"]["random_seed"] = 2**32 - 2
@@ -53,7 +62,7 @@ def make_case(seed, idx, tier):
         d["gsc"] = {"k": "melimit", "n": 4}
     d["c14"] = True
     d["subprocess_hashseeds"] = ["1", "random"] if tier == "quick" else ["0", "1", "12345", "random"]
-    if tier == "quick" and idx % 2:
+    if tier == "quick" and idx % 2 and not d.get("force_subprocess"):
         d["subprocess_hashseeds"] = []
     return d
 
@@ -137,6 +146,9 @@ def run_case(desc):
                 {"differences": diff_snapshots(s1, s3), "engines": gen.engine_mix(desc), "hashseed": hs},
             )
     n_demes = len(s1.get("demes", []))
+    per = Counter((dm["level"], dm["started_at"]) for dm in s1.get("demes", []) if dm["level"] > 0 and dm["class"] in ("CMADeme", "LHSDeme", "SobolDeme"))
+    if any(v >= 2 for v in per.values()):
+        cov["two_seed_consuming_demes_sprouted_onto_one_level_in_one_metaepoch"] += 1
     if n_demes >= 2:
         cov["descriptors_with_2_demes"] += 1
     if len(desc["levels"]) >= 3:
